@@ -260,6 +260,7 @@ def prove_contract(c: Contract, registry: dict[str, Contract], tier: str, call=N
         timeout, budget_s = 2000, 20
     fn = None
     backends = set()
+    finite_budget = [0 if hurry else 6]  # finite-instantiation attempts for undecided goals of this function
     for ob in obls:
         over = rep["solver_s"] > budget_s
         for r in solve.discharge(ob, 1000 if over else timeout, try_cvc5=not (over or hurry)):
@@ -290,7 +291,35 @@ def prove_contract(c: Contract, registry: dict[str, Contract], tier: str, call=N
             else:
                 rec["goal"] = r.goal_text
                 rec["reason"] = r.reason
-                rep["unknown"].append(rec)
+                # undecided: look for a candidate counter-model by finite instantiation and replay it on the real code
+                replayed = None
+                if finite_budget[0] > 0:
+                    finite_budget[0] -= 1
+                    try:
+                        h_, g_ = solve.split_goal(ob.hyps, ob.goal)[r.sub]
+                        cands = solve.finite_candidate(h_, g_, ob.params or {}, 7, 20000)
+                    except Exception as e:  # noqa: BLE001
+                        cands = []
+                        rec["finite_error"] = f"{type(e).__name__}: {e}"[:300]
+                    rec["finite_candidates"] = len(cands)
+                    for cand in cands:
+                        if any(isinstance(v, tuple) and len(v) == 2 and v[0] == "<unreadable>" for v in cand.values()):
+                            continue
+                        if fn is None:
+                            fn, _ = resolve_real(c)
+                        try:
+                            res = check_concrete(c, fn, cand, call)
+                        except Exception as e:  # noqa: BLE001
+                            res = {"contract_error": f"{type(e).__name__}: {e}"}
+                        if res.get("failures"):
+                            replayed = res
+                            rec.update(status="refuted", backend="z3(finite-instantiation)", model=jsonable(cand),
+                                       replay=res, replay_args=cand)
+                            break
+                if replayed:
+                    rep["refuted"].append(rec)
+                else:
+                    rep["unknown"].append(rec)
             rep["results"].append({k: v for k, v in rec.items() if k not in ("replay_args",)})
     rep["backends"] = sorted(backends)
     rep["solver_s"] = round(rep["solver_s"], 3)
